@@ -144,6 +144,7 @@ class UnitResult(object):
                     "seconds": round(o.seconds, 4),
                     "kind": o.kind,
                     "backend": getattr(o, "backend", None),
+                    "grid": getattr(o, "grid", None),
                 }
                 for o in self.obligations
             ],
@@ -276,3 +277,43 @@ def check_frame(ctx, contract):
             ctx.fail("frame/hash-order", ev[1])
         elif kind == "one-shot-iterator":
             ctx.data.setdefault("one_shot", []).append(ev[1])
+
+
+class LemmaCtx(Ctx):
+    def __init__(self, engine, st, name, case):
+        self.engine = engine
+        self.st = st
+        self.case = case
+        self.data = {}
+        self.name = name
+
+    def prove(self, name, goal, detail=None):
+        return self.st.prove("lemma:%s/%s" % (self.name, name), goal, detail, kind="lemma")
+
+    def fail(self, name, detail, status="refuted"):
+        return self.st.fail("lemma:%s/%s" % (self.name, name), detail, status=status, kind="lemma")
+
+
+def run_lemma(name, fn, case):
+    """a specification-level lemma: fn(ctx) builds its hypotheses and emits obligations"""
+    label = "lemma:%s%s" % (name, ("[" + ",".join("%s=%s" % (k, case[k]) for k in sorted(case)) + "]") if case else "")
+    res = UnitResult(label)
+    t0 = time.time()
+    engine = Engine(contracts=REGISTRY)
+    st = PathState(engine, [])
+    ctx = LemmaCtx(engine, st, name, case)
+    engine.model_terms = []
+    res.paths = 1
+    try:
+        fn(ctx)
+    except (Unsupported, UnsupportedOp, NumericUndecided, TooManyLeaves, NotImplementedError) as e:
+        res.undecided.append(("%s: %s" % (type(e).__name__, e), []))
+    except Exception as e:  # noqa
+        res.crash = "".join(traceback.format_exception(type(e), e, e.__traceback__)[-6:])
+        res.undecided.append(("checker error: %r" % (e,), []))
+    res.obligations.extend(st.obligations)
+    res.seconds = time.time() - t0
+    res.solver_checks = engine.stats.checks
+    res.solver_seconds = engine.stats.seconds
+    res.fd_points = int(engine.stats.fd.get("points", 0))
+    return res
